@@ -27,6 +27,7 @@ if not NATIVE:
     from symx.harness import Obligation
     REG = sandbox.dr_registry(dr)
 
+_CONTROL = (KeyboardInterrupt, SystemExit, GeneratorExit) + (() if NATIVE else (core.Abort, core.StopExploration, core.Inconclusive))
 PROPERTY = "C03"
 FILES = ["insights/core/dr.py", "insights/core/plugins.py", "insights/core/exceptions.py", "insights/core/spec_factory.py"]
 
@@ -241,6 +242,11 @@ def run_world(faults, vals, list_len, coe, store_skips, observer, obs_target, la
         else:
             dr.run_all(comps, broker=broker)
     except Exception as ex:  # noqa
+        escaped = ex
+    except BaseException as ex:  # noqa
+        # the engine's own control exceptions pass through; anything else that escapes is the evaluated code's exception, whatever its base
+        if isinstance(ex, _CONTROL):
+            raise
         escaped = ex
     finally:
         plugins.signal = real_signal
